@@ -74,7 +74,7 @@ func vMkWorld() *vWorld {
 	// recovery timers that were stopped by a later state change - but had already expired, so that
 	// their callback still runs (time.Timer.Stop reports false and cannot cancel it): they captured
 	// an older lastChange of their endpoint
-	if w.r > 0 && verifCase("firestopped") == 1 {
+	if w.r > 0 && verifFlag("firestopped") {
 		for i := 0; i < vE; i++ {
 			e := w.eps[i]
 			if verifBool("hasStopped" + verifD(i)) {
@@ -93,7 +93,7 @@ func vMkWorld() *vWorld {
 		}
 	}
 	// an endpoint object that was removed while recovering: its timer is still live
-	if w.r > 0 && verifBool("hasOrphan") {
+	if w.r > 0 && !verifFlag("lean") && verifBool("hasOrphan") {
 		w.orphan = &endpoint{id: verifChoose("orphanId", "A", "B", "C"), priority: verifInt("orphanPrio"), status: recovering, lastChange: time.Unix(0, int64(verifInt("orphanLastChange")))}
 		verifAssume(w.orphan.lastChange.UnixNano() >= 0 && w.orphan.lastChange.UnixNano() <= vNow)
 		m.scheduleUnavailable(w.orphan)
@@ -104,6 +104,9 @@ func vMkWorld() *vWorld {
 	if w.d > 0 {
 		ns := verifInt("nSwitchTimers")
 		verifAssume(ns >= 0 && ns <= 2)
+		if verifFlag("lean") {
+			verifAssume(ns <= 1)
+		}
 		for k := 0; k < 2; k++ {
 			if k < ns {
 				cur, fut := m.current, m.future
@@ -239,7 +242,7 @@ func VerifH_mestep() {
 		i := verifInt("timer")
 		verifAssume(i >= 0 && i < len(vTimers))
 		t := vTimers[i]
-		if verifCase("firestopped") == 1 {
+		if verifFlag("firestopped") {
 			verifAssume(t.stopped && !t.fired) // an expired timer whose Stop() came too late
 			verifReach("stopped timer fired")
 		} else {
@@ -355,7 +358,7 @@ func VerifH_mestep() {
 		}
 		verifAssert(same, "C13: report for an unknown endpoint changed the state")
 	}
-	if op == 2 && verifCase("firestopped") == 1 {
+	if op == 2 && verifFlag("firestopped") {
 		// an outdated recovery timer (its endpoint changed state since it was armed) must do nothing
 		same := cur0 == m.current && timers0 == len(vTimers)
 		for i := 0; i < vE; i++ {
